@@ -1518,7 +1518,11 @@ class EqWorld(BaseWorld):
         family_ok = (pk.family is not None and pk.simple_K and cb.F_gas == 0. and cb.F_heavy == 0.
                      and cb.z is not None and float(cb.z.min()) >= 0.02 and len(cb.vol) >= 2)
         # (3) specified vapour fraction met within the solver's resolution (family mixtures)
-        if 'V' in spec and family_ok and self.win['V'][0] < ev['V'] < self.win['V'][1]:
+        # ... only where the RESULT lies inside the property's window too (T 280-450 K, P 2e4-1e6 Pa): a PV / TV
+        # specification inside the window can be answered outside it, where nothing is claimed
+        res_in_window = (self.win['T'][0] <= float(after.T) <= self.win['T'][1]
+                         and self.win['P'][0] <= float(after.P) <= self.win['P'][1])
+        if 'V' in spec and family_ok and self.win['V'][0] < ev['V'] < self.win['V'][1] and res_in_window:
             self.c04_vspec(out, ev, name, pk, cb, after, count)
         # (4) phase boundaries and iso-fugacity at specified T and P (family mixtures)
         if spec == 'TP' and family_ok:
